@@ -110,6 +110,15 @@ Definition c10_probe_ok (excl init : bool) (clear : nat) (panic seen after : boo
          if panic then (if excl then after else true) else Bool.eqb after f1
   end.
 
+(* C11, probes with a lock killed by user code while it is held (harness/src/kil.rs: `RawLock::poison` is a safe public
+   method; the model's history vocabulary has no such call): the hold still ends like any other.  [n] member locks, each
+   acquired once; every one released exactly once in the mode of the hold, no release that the counting lock flags (not
+   held / wrong mode), the key obtainable again, and the user-code panic — iff there was one — reached the caller. *)
+Definition c11_kill_probe_ok (n : nat) (shared panic : bool) (acq relex relsh bad : nat) (key panicked : bool) : bool :=
+  Nat.eqb acq n &&
+  (if shared then Nat.eqb relsh n && Nat.eqb relex 0 else Nat.eqb relex n && Nat.eqb relsh 0) &&
+  Nat.eqb bad 0 && key && Bool.eqb panicked panic.
+
 (* C10, "a poisoned acquisition still acquires the lock": a non-blocking acquisition (try / scoped try) of a Poisonable
    root whose leaves are all available in the hold table left by the previous call (histories are API-call-atomic) does
    not report WouldBlock, whatever the poison flag says.  Evaluated on the implementation's observation next to mon_C10. *)
